@@ -22,7 +22,7 @@ PLATFORMS = {
     "win-932": dict(encoding="cp932", linesep="\r\n"),
 }
 BUFSIZES = [1, 2, 3, 7, 16, 61, 4096, 8192]
-SIMPLE_KNOBS = dict(pipe_t0_zero=True, sm_lcm_cap=None, bms_odd_tempo_subdiv=None, platform="posix", path_type="str", stored_newline="lf", dest_state="absent", text_chunk=8192, faults="off")
+SIMPLE_KNOBS = dict(tuning_const=None, pipe_t0_zero=True, sm_lcm_cap=None, bms_odd_tempo_subdiv=None, platform="posix", path_type="str", stored_newline="lf", dest_state="absent", text_chunk=8192, faults="off")
 MAX_SHORT_CALLS = 200
 
 FILE_PROPS = {"C01", "C02", "C03", "C04", "C05", "C06", "C07", "C09", "C13", "C14", "C15"}
@@ -45,6 +45,7 @@ def draw_knobs(r: random.Random, prop: str, tier: str) -> dict:
         sm_lcm_cap=384 if r.random() < 0.96 else None,
         bms_odd_tempo_subdiv=r.random() < 0.05,
         pipe_t0_zero=r.random() < 0.5,
+        tuning_const=r.choice([None, 1, 2, 3, 5, 7, 16, 61]),
     )
 
 
@@ -351,6 +352,7 @@ class Patched:
         import stat as _stat
 
         fs = self.fs
+        small = fs.knobs.get("tuning_const")
         for mod, names in SEAM_MODULES.items():
             importlib.import_module(mod.rsplit(".", 1)[0])
             m = sys.modules[mod]
@@ -358,6 +360,14 @@ class Patched:
                 had = n in m.__dict__
                 self.saved.append((m, n, had, m.__dict__.get(n)))
                 setattr(m, n, fs.open if n == "open" else fs.codecs_open)
+            if small:
+                # "randomise tuning knobs": an upper-case integer constant >= 1024 in a file module is a chunk / block /
+                # buffer size; correctness must not depend on it, and generated files are far smaller than 64 KiB
+                for n, v in list(m.__dict__.items()):
+                    if n.isupper() and type(v) is int and v >= 1024:
+                        self.saved.append((m, n, True, v))
+                        setattr(m, n, int(small))
+                        fs.stats["tuning_const_shrunk"] = fs.stats.get("tuning_const_shrunk", 0) + 1
         real = dict(replace=_os.replace, rename=_os.rename, remove=_os.remove, unlink=_os.unlink, stat=_os.stat, fsync=_os.fsync,
                     exists=_os.path.exists, isfile=_os.path.isfile, getsize=_os.path.getsize)
 
